@@ -5,11 +5,14 @@ from . import equiv
 def run(ctx):
     equiv.rule_class_tables_agree(ctx)
     equiv.rule_classes_partition(ctx)
+    equiv.rule_merge_test(ctx)
     ctx.assume("rustc's MIR; provenance trees of sa/prov.py (flow-insensitive, closures resolved to the adaptor they are handed to)")
     ctx.assume("ArgumentSet::new_with_labels gives ids 0..n-1 in the order of the label slice (C12/C13 rules labels-append-only, declaration-order)")
     return (
         "Provenance trees (which value is stored under which index; which table an accessor reads with which key) for the second sentence of "
         "the statement: the two mappings are total and inverse to each other at the level of classes - the writer of the class list, the "
-        "writer of the init->reduced table and the two readers agree, and every argument enters exactly one class. The first sentence (merged "
-        "arguments belong to the same complete extensions) is a semantic fact about the propagation over all graphs and is NOT decided."
+        "writer of the init->reduced table and the two readers agree, and every argument enters exactly one class. Of the first sentence only the "
+        "mechanism the property names is decided structurally (a candidate joins a class under `its propagation contains the seed`; the "
+        "propagations start from plain in-degree counters); that merged arguments belong to the same complete extensions is a semantic fact "
+        "about the propagation over all graphs and is NOT decided."
     )
